@@ -712,7 +712,13 @@ def _xr_reproject_ds(
             dv, how=dst_geobox, resampling=resampling, dst_nodata=dst_nodata, **kw
         )
 
-    return src.map(_maybe_reproject)
+    # Dataset.map may copy the attributes of the source variables and coordinates onto the
+    # result (depends on the xarray version), that would bring back the source CRS
+    attrs = {k: v for k, v in src.attrs.items() if k not in SPATIAL_ATTRIBUTES}
+    return xarray.Dataset(
+        {name: _maybe_reproject(dv) for name, dv in src.data_vars.items()},
+        attrs=attrs,
+    )
 
 
 def _xr_reproject_da(
